@@ -1,17 +1,17 @@
 SPECIFICATION GenSpec
 CONSTANTS
   Dirs <- GenDirs
-  TypeEncs <- GenTypeEncsQuick
+  TypeEncs <- GenMeshTypeEncs
   Maxes <- GenMaxesQuick
-  Methods <- GenMethodsQuick
+  Methods <- GenOneMethod
   Shardings <- GenShardings
-  Codes <- GenCodesQuick
-  MeshDirs <- GenNone
-  MeshNames <- GenNone
-  Tables <- GenNone
+  Codes <- GenNone
+  MeshDirs <- GenMeshDirs
+  MeshNames <- GenMeshNames
+  Tables <- GenTables
   MeshRewritesInfo = "keepAll"
   CfgSpace <- GenCfg
-  MaxLen = 5
+  MaxLen = 6
   AioForwardsMethod = TRUE
   CopyInfoLayout = "byInfo"
 VIEW GenView
